@@ -226,9 +226,22 @@ BinUpd(m, st, l, r, S) ==
 \* PredicateOperation.update (standard semantics): subtraction, then the comparison's sign convention
 CmpMap(cmp, v) == CASE cmp = "eq" -> Neg(Abs(v)) [] cmp = "ne" -> Abs(v) [] cmp \in {"le", "lt"} -> Neg(v) [] OTHER -> v
 MapSeq(sl, F(_)) == [i \in 1..Len(sl) |-> <<sl[i][1], F(sl[i][2])>>]
-PredUpd(cmp, st, l, r, S) ==
+\* append when the value changes, or for the last element (`if v != prev or i == len - 1`)
+RECURSIVE MergeEq(_, _, _, _)
+MergeEq(sl, i, pv, acc) ==
+  IF i > Len(sl) THEN acc
+  ELSE MergeEq(sl, i + 1, sl[i][2], IF sl[i][2] # pv \/ i = Len(sl) THEN Append(acc, sl[i]) ELSE acc)
+\* interface-aware semantics (iastl/dense_time/*): a predicate that mentions no variable of the relevant class contributes
+\* +-inf (robustness variants) or 0 (vacuity variants) according to its Boolean verdict, which the code reads off the sign
+\* of the numeric robustness; the samples are those at which that robustness changes
+SatOfRob(cmp, rob) == IF cmp \in {"ge", "le", "eq"} THEN rob >= 0 ELSE rob > 0
+IAVal(Md, cmp, rob) == IF Md.sem \in {"out_vac", "in_vac"} THEN 0 ELSE IF SatOfRob(cmp, rob) THEN PInf ELSE NInf
+PredUpd(p, st, l, r, S, Md) ==
   LET x == BinUpd("sub", st, l, r, S) IN
-  IF x.err THEN x ELSE [err |-> FALSE, ret |-> MapSeq(x.ret, LAMBDA v : CmpMap(cmp, v)), st |-> x.st]
+  IF x.err THEN x
+  ELSE LET base == MapSeq(x.ret, LAMBDA v : CmpMap(p.cmp, v)) IN
+       [err |-> FALSE, st |-> x.st,
+        ret |-> IF Insensitive(p, Md) THEN MapSeq(MergeEq(base, 1, NaNV, <<>>), LAMBDA v : IAVal(Md, p.cmp, v)) ELSE base]
 
 ---------------------------------------------------------------------------
 (* Part 3: the stateless maps, untimed once / historically, untimed since (since_operation.py) *)
@@ -296,8 +309,8 @@ InitMemC(p) ==
 Done(p, M, V, out) == [M |-> M, V |-> [done |-> V.done \cup {p}, o |-> [V.o EXCEPT ![p] = out]], out |-> out, err |-> FALSE]
 Failed(M, V) == [M |-> M, V |-> V, out |-> <<>>, err |-> TRUE]
 
-RECURSIVE EvalC(_, _, _, _, _, _)
-EvalC(p, M, V, batch, S, Dev) ==
+RECURSIVE EvalC(_, _, _, _, _, _, _)
+EvalC(p, M, V, batch, S, Dev, Md) ==
   IF p \in V.done THEN [M |-> M, V |-> V, out |-> V.o[p], err |-> FALSE]
   ELSE IF p.op = "var" THEN Done(p, M, V, batch[p.v])
   ELSE IF p.op = "const" THEN
@@ -305,7 +318,7 @@ EvalC(p, M, V, batch, S, Dev) ==
      THEN Done(p, [M EXCEPT ![p] = [first |-> FALSE]], V, <<<<0, p.c>>, <<PInf, p.c>>>>)
      ELSE Done(p, M, V, <<>>))
   ELSE IF p.op \in Un1 THEN
-    LET c == EvalC(p.l, M, V, batch, S, Dev) IN
+    LET c == EvalC(p.l, M, V, batch, S, Dev, Md) IN
     IF c.err THEN c
     ELSE IF p.op \in {"not", "neg"} THEN Done(p, c.M, c.V, MapSeq(c.out, Neg))
     ELSE IF p.op = "abs" THEN Done(p, c.M, c.V, MapSeq(c.out, Abs))
@@ -317,13 +330,13 @@ EvalC(p, M, V, batch, S, Dev) ==
       IF r.err THEN Failed(c.M, c.V) ELSE Done(p, [c.M EXCEPT ![p] = r.st], c.V, r.ret)
     ELSE Failed(c.M, c.V)
   ELSE
-    LET cl == EvalC(p.l, M, V, batch, S, Dev) IN
+    LET cl == EvalC(p.l, M, V, batch, S, Dev, Md) IN
     IF cl.err THEN cl
     ELSE
-      LET cr == EvalC(p.r, cl.M, cl.V, batch, S, Dev) IN
+      LET cr == EvalC(p.r, cl.M, cl.V, batch, S, Dev, Md) IN
       IF cr.err THEN cr
       ELSE
-        LET r == IF p.op = "pred" THEN PredUpd(p.cmp, cr.M[p], cl.out, cr.out, S)
+        LET r == IF p.op = "pred" THEN PredUpd(p, cr.M[p], cl.out, cr.out, S, Md)
                  ELSE IF p.op = "since" THEN SinceUpd(cr.M[p], cl.out, cr.out)
                  ELSE IF p.op = "sinceT" THEN SinceTUpd(p.a, p.b, cr.M[p], cl.out, cr.out, S, Dev)
                  ELSE BinUpd(p.op, cr.M[p], cl.out, cr.out, S) IN
@@ -331,17 +344,19 @@ EvalC(p, M, V, batch, S, Dev) ==
 
 \* spec.update(batches): batch is a function from the variables to sample lists
 V0(p) == [done |-> {}, o |-> [q \in SubF(p) |-> <<>>]]
-UpdateC(p, M, batch, S, Dev) ==
-  LET r == EvalC(p, M, V0(p), batch, S, Dev) IN [err |-> r.err, ret |-> r.out, M |-> r.M]
+UpdateCM(p, M, batch, S, Dev, Md) ==
+  LET r == EvalC(p, M, V0(p), batch, S, Dev, Md) IN [err |-> r.err, ret |-> r.out, M |-> r.M]
+UpdateC(p, M, batch, S, Dev) == UpdateCM(p, M, batch, S, Dev, StdMode)
 
 \* the contract (property C05): the concatenated returns denote Dense!SigC of the whole input on the domain they cover
-RefCellsF(p, W, vs, S) ==
+RefCellsFM(p, W, vs, S, Md) ==
   LET d1 == DomEnd(W, vs) + Settle(p)
       C == CellsOf(W, vs, 0, d1) IN
-  SigC(p, C, d1 + 1, S, [sem |-> "standard", io |-> [v \in vs |-> "output"]])
-AgreesWithF(emitted, p, W, vs, S) ==
+  SigC(p, C, d1 + 1, S, Md)
+AgreesWithFM(emitted, p, W, vs, S, Md) ==
   emitted = <<>> \/
-  LET R == RefCellsF(p, W, vs, S)
+  LET R == RefCellsFM(p, W, vs, S, Md)
       n == Len(R) IN
   \A t \in FirstT(emitted)..LastT(emitted) : StepAt(emitted, t) = R[Clip(t + 1, n)]
+AgreesWithF(emitted, p, W, vs, S) == AgreesWithFM(emitted, p, W, vs, S, [sem |-> "standard", io |-> [v \in vs |-> "output"]])
 =============================================================================
